@@ -46,6 +46,8 @@ KNOWN_WITNESSES = [
     ("{{ s | truncate: x }}", {"s": "abc", "x": float("inf")}), ("{{ s | slice: x }}", {"s": "abc", "x": float("inf")}),
     ("{% translate count: a %}a{% plural %}b{% endtranslate %}", {"a": {}}),
     ("{{ a | map: () => i.x }}", {"a": [{"x": 1}]}),
+    ("{% for i in r %}{% break %}{% endfor %}{{ r.size }}{{ r | size }}{{ r | first }}{{ r | last }}{{ r }}", {"r": range(0, 10 ** 30)}),
+    ("{% for i in r limit: 2 %}{{ i }}{% endfor %}{{ r.first }}{{ r.last }}", {"r": range(-(10 ** 30), 10 ** 30, 7)}),
     ("{{ x | date: '%Y' }}", {"x": "9" * 40}), ("{{ '-10152098955' | date: '%m/%d/%Y' }}", {}),
     ("{% for i in (1..2) %}{% for j in forloop %}{{ j }}{% endfor %}{% endfor %}", {}),
     ("{% for i in (1..2) %}{{ forloop | join: ',' }}{{ forloop | first }}{{ forloop | map: 'x' }}{% if forloop == x %}{% endif %}{% endfor %}", {"x": {}}),
@@ -412,7 +414,27 @@ def errctx_items(r: Any, n: int) -> list[dict[str, Any]]:
 
 
 def run_oracles(chk: C.Check, r: Any, stats: dict[str, int]) -> None:
-    """The direct oracle over the UNMODELLED parser and renderer (no Coq involved)."""
+    """The direct oracle over the UNMODELLED parser and renderer (no Coq involved).
+    Runs under an address-space limit so that a runaway allocation becomes a
+    MemoryError finding instead of exhausting the machine."""
+    import resource
+
+    soft, hard = resource.getrlimit(resource.RLIMIT_AS)
+    cap = 6 * 1024 ** 3
+    try:
+        resource.setrlimit(resource.RLIMIT_AS, (cap if hard == resource.RLIM_INFINITY else min(cap, hard), hard))
+    except (ValueError, OSError):
+        pass
+    try:
+        _run_oracles(chk, r, stats)
+    finally:
+        try:
+            resource.setrlimit(resource.RLIMIT_AS, (soft, hard))
+        except (ValueError, OSError):
+            pass
+
+
+def _run_oracles(chk: C.Check, r: Any, stats: dict[str, int]) -> None:
     thorough = chk.tier == "thorough"
     # ---- (d) direct oracle over the unmodelled parser and renderer
     cts_path = C.REPO / "tests" / "liquid2-compliance-test-suite" / "cts.json"
